@@ -11,6 +11,16 @@ import (
 
 func init() { commands["optcfg-run"] = optCfgRun }
 
+// slices of pointers to scalars and pointers to pointers as capture targets: whatever Build and the conversions make of them,
+// parsing returns
+type ptrElemGrammar struct {
+	Ints   []*int     `@Int*`
+	Marks  []*bool    `@"!"*`
+	Floats []*float64 `( "(" @Int ")" )*`
+	PP     **int      `( "=" @Int )?`
+	Strs   []*string  `@Ident*`
+}
+
 type optItem struct {
 	Name  string   `( @Ident`
 	Nums  []string `  | @Int+`
@@ -64,6 +74,44 @@ func optCfgRun(args []string) error {
 		{"no-options", nil},
 	}
 	inputs := []string{"", "a", "a 1 2 !", " a#x#b ", "1a", "\xff", "a\x00b", "\"s\" 'c' `r`", strings.Repeat("a ", 50), "x \"\" y", "\"a\\nb\" q 7", "\"\\q\""}
+	{
+		build := "ok"
+		worst := "ok"
+		func() {
+			defer func() {
+				if r := recover(); r != nil {
+					build = fmt.Sprintf("panic: %v", r)
+				}
+			}()
+			p, err := participle.Build[ptrElemGrammar](lx, participle.Elide("WS", "Comment"))
+			if err != nil {
+				build = "err " + strings.ReplaceAll(err.Error(), "\n", " ")
+				return
+			}
+			for _, in := range []string{"", "1", "1 2 ! ! ( 3 ) = 4 a b", "! x", "= 7", "( 1 ) ( 2 )", "9 9 9"} {
+				o := runGuarded(func() (res string) {
+					defer func() {
+						if r := recover(); r != nil {
+							res = fmt.Sprintf("panic: %v", r)
+						}
+					}()
+					if _, err := p.ParseString("f", in); err != nil {
+						return "err"
+					}
+					return "ok"
+				})
+				if strings.HasPrefix(o, "panic") || o == "hang" {
+					worst = fmt.Sprintf("%s in ParseString(%q)", o, in)
+					break
+				}
+			}
+		}()
+		if build == "ok" {
+			fmt.Printf("pointer-element-fields\tok\t%s\n", worst)
+		} else {
+			fmt.Printf("pointer-element-fields\t%s\t-\n", build)
+		}
+	}
 	for _, c := range cfgs {
 		var p *participle.Parser[optGrammar]
 		build := runGuarded(func() (res string) {
